@@ -1,0 +1,29 @@
+//go:build verif
+
+package index
+
+import (
+	"github.com/sourcegraph/zoekt"
+	"github.com/sourcegraph/zoekt/query"
+)
+
+// Verification hooks (C05): indexData.simplify on a loaded shard, and on a bare indexData that carries only the
+// repository metadata and index metadata simplify looks at. Not part of the normal build.
+
+// VerifSimplify runs indexData.simplify of a searcher returned by NewSearcher.
+func VerifSimplify(s zoekt.Searcher, q query.Q) (query.Q, bool) {
+	d, ok := s.(*indexData)
+	if !ok {
+		return nil, false
+	}
+	return d.simplify(q), true
+}
+
+// VerifSimplifyRepos runs indexData.simplify on an indexData with the given repository and index metadata.
+func VerifSimplifyRepos(repos []zoekt.Repository, md zoekt.IndexMetadata, q query.Q) query.Q {
+	d := &indexData{repoMetaData: repos, metaData: md}
+	return d.simplify(q)
+}
+
+// VerifEncodeRawConfig is encodeRawConfig.
+func VerifEncodeRawConfig(rawConfig map[string]string) uint8 { return encodeRawConfig(rawConfig) }
